@@ -145,18 +145,18 @@ def pubIrshift (l : Bits) (n : Int) : Except Err Bits :=
 def pubImul (l : Bits) (n : Int) : Except Err Bits :=
   if n < 0 then .error .value else imulH l n
 
-/-- `BitArray.insert(bs, pos)` (bitarray_.py): empty → no-op, negative pos from the end, range check. -/
+/-- `BitArray.insert(bs, pos)` (bitarray_.py): negative pos from the end, range check, then empty → no-op. -/
 def pubInsert (l b : Bits) (pos : Int) : Except Err Bits :=
-  if b.length = 0 then .ok l else
   let p := if pos < 0 then pos + l.length else pos
-  if ¬ (0 ≤ p ∧ p ≤ l.length) then .error .value else insertH l b p
+  if ¬ (0 ≤ p ∧ p ≤ l.length) then .error .value else
+  if b.length = 0 then .ok l else insertH l b p
 
 /-- `BitArray.overwrite(bs, pos)`; `same` = the argument is the object itself (it is then copied first). -/
 def pubOverwrite (l b : Bits) (pos : Int) (same : Bool) : Except Err Bits :=
   let b := if same then l else b
-  if b.length = 0 then .ok l else
   let p := if pos < 0 then pos + l.length else pos
-  if p < 0 ∨ p > l.length then .error .value else overwriteH l b p false
+  if p < 0 ∨ p > l.length then .error .value else
+  if b.length = 0 then .ok l else overwriteH l b p false
 
 /-- `BitArray.rol(bits, start, end)` → `_rol_msb0`. -/
 def pubRol (l : Bits) (bits : Int) (start stop : Option Int) : Except Err Bits :=
@@ -197,7 +197,7 @@ def pubByteswap (l : Bits) (fmt : Int) (start stop : Option Int) (repeat_ : Bool
   let size : Int := if fmt = 0 then (e - s) / 8 else fmt
   let total := 8 * size
   if total = 0 then pure (l, 0) else
-  let finalbit := if repeat_ then e else s + total
+  let finalbit := if repeat_ then e else min (s + total) e      -- a single pattern only if it fits before `end`
   -- for patternend in range(start + total, finalbit + 1, total)
   let ends := Py.rangeList (s + total) (finalbit + 1) total
   ends.foldlM (fun (acc : Bits × Nat) pe => do
